@@ -279,6 +279,12 @@ class timemodel(_coreiterative):
         # find first time to save if exists
         while (isave < nsave) and (self.Qn.time > tsave[isave]):
             isave += 1
+        # initial state is itself a requested result (no step to compute)
+        if (isave < nsave) and (self.Qn.time == tsave[isave]):
+            Qnn = self.Qn.copy()
+            Qnn.it = self._itstart + self._nit
+            results.append(Qnn)
+            isave += 1
         # MAIN LOOP
         while not checkend:
             dtloc = self.modeldisc.calc_timestep(self.Qn, condition)
@@ -286,8 +292,9 @@ class timemodel(_coreiterative):
             Qnn = self.Qn.copy()
             # specific steps to save all results reached by this time step and go back to Qn
             while (isave < nsave) and (self.Qn.time+mindtloc >= tsave[isave]):
-                # compute smaller step with same integrator
-                self.step(Qnn, tsave[isave]-self.Qn.time)
+                # compute smaller step with same integrator (if not already reached by Qn)
+                if tsave[isave] > self.Qn.time:
+                    self.step(Qnn, tsave[isave]-self.Qn.time)
                 Qnn.it = self._itstart + self._nit
                 results.append(Qnn)
                 if verbose:
